@@ -120,6 +120,7 @@ def is_plain_callable_object(obj):
 
 ADVERSARIAL = r'''
 import functools, contextlib, asyncio
+import sigtools.specifiers
 def callee(x, y=1, *, z=2): return None
 def other(*a, **k): return None
 async def a_async(*args, **kwargs):
@@ -326,6 +327,82 @@ class A_Unhashable:
 a_unhashable = A_Unhashable()
 a_bound = a_meth.m
 a_cls = A_Meth.c
+# an ordinary function that forwards TO an unhashable callable (global, closure cell, attribute)
+def a_fwd_unhashable(*args, **kwargs):
+    return a_unhashable(*args, **kwargs)
+def a_make_fwd_unhashable(target):
+    def a_inner_fwd(*args, **kwargs):
+        return target(*args, **kwargs)
+    return a_inner_fwd
+a_fwd_unhashable_closure = a_make_fwd_unhashable(A_Unhashable())
+class A_HoldsUnhashable:
+    def __init__(self):
+        self.handler = A_Unhashable()
+    def run(self, *args, **kwargs):
+        return self.handler(*args, **kwargs)
+a_fwd_unhashable_attr = A_HoldsUnhashable().run
+# members of every kind, as autodoc documents them through their dotted name
+class A_Kinds:
+    def __init__(self):
+        self.handler = callee
+    def plain(self, a, b=1):
+        return None
+    @staticmethod
+    def static(p, q=2):
+        return None
+    @classmethod
+    def clsm(cls, r, *more):
+        return None
+    def inner(self, a, b=1):
+        return None
+    @sigtools.specifiers.forwards_to_method('inner')
+    def declared(self, x, *args, **kwargs):
+        return self.inner(*args, **kwargs)
+    @sigtools.specifiers.forwards_to_method('handler')
+    def declared_attr(self, x, *args, **kwargs):
+        return self.handler(*args, **kwargs)
+    def discovered(self, x, *args, **kwargs):
+        return self.inner(*args, **kwargs)
+    def discovered_attr(self, x, *args, **kwargs):
+        return self.handler(*args, **kwargs)
+# a partial object binding more positionals than the discovered callee takes (a valid object:
+# inspect reports the wrapper's own stars), and star arguments read from globals of any type
+def a_fwd_plain(*args, **kwargs):
+    return callee(*args, **kwargs)
+a_partial_overbound = functools.partial(a_fwd_plain, 1, 2, 3, 4)
+a_partial_badkw = functools.partial(a_fwd_plain, nosuch=1)
+OPTS_STR = "ab"
+OPTS_INT = 5
+OPTS_LIST = [1, 2]
+def a_kwargs_from_str(*args, **kwargs):
+    return callee(*args, **OPTS_STR)
+def a_kwargs_from_int(*args, **kwargs):
+    return callee(*args, **OPTS_INT)
+def a_kwargs_from_list(*args, **kwargs):
+    return callee(*args, **OPTS_LIST)
+def a_args_from_int(*args, **kwargs):
+    return callee(*OPTS_INT, **kwargs)
+def a_args_from_str(*args, **kwargs):
+    return callee(*OPTS_STR, **kwargs)
+# inner functions and lambdas with every kind of parameter and default
+def a_inner_kwonly_required(*args, **kwargs):
+    def inner(x, *, key):
+        return callee(x, y=key)
+    return inner(*args, **kwargs)
+def a_inner_kwonly_mixed(*args, **kwargs):
+    def inner(x=1, /, y=other(), *rest, key, flag=other(1), **more):
+        return callee(x, *rest, **more)
+    return callee(*args, **kwargs)
+def a_lambda_kwonly_required(*args, **kwargs):
+    pick = lambda *, n: callee(n)
+    return callee(*args, **kwargs) or pick(n=1)
+def a_lambda_defaults(*args, **kwargs):
+    pick = lambda a=other(), *r, k=other(2), **m: callee(a, *r, **m)
+    return callee(*args, **kwargs)
+async def a_async_inner_kwonly(*args, **kwargs):
+    def inner(*, key):
+        return key
+    return callee(*args, **kwargs)
 a_partial_obj = functools.partial(a_posonly, callee)
 a_partial_kw = functools.partial(callee, y=5)
 @functools.wraps(callee)
@@ -549,9 +626,48 @@ def sphinx_check(name, obj, rep, stats):
             rep.violation('C07:sphinx', 'sphinxext.process_signature(%s) returned %r, expected %r'
                           % (name, (s, ra), (want_s, want_ra)), {'kind': 'sphinx', 'name': name})
             return
+    # members of a class, documented through their dotted name: a static or class method keeps
+    # all the parameters its callers pass; a plain method loses exactly `self`
+    member = class_member(name)
+    if member is not None and (s, ra) != ('(orig)', 'origret'):
+        parent, raw, attr = member
+        want = None
+        if isinstance(raw, staticmethod):
+            want = outcome(lambda: sigtools.signature(getattr(parent, attr)))
+        # (class methods, like plain methods, are documented through a stand-in)
+        # (a plain method is documented through a stand-in instance: what discovery finds through
+        # `self` there is not specified, only that the hook does not raise)
+        if want is not None and want[0] == 'ok':
+            try:
+                ev = want[1].evaluated()
+            except Exception:  # noqa: BLE001
+                ev = want[1]
+            want_s = str(ev.replace(return_annotation=ev.empty))
+            stats['sphinx_member_compared'] += 1
+            if s != want_s:
+                rep.violation('C07:sphinx', 'sphinxext.process_signature(%s) returned %r; as a member of its class (%s) the callable has the signature %s'
+                              % (name, s, type(raw).__name__, want_s), {'kind': 'sphinx', 'name': name})
+                return
     if not (isinstance(s, str) or s is None) or not (isinstance(ra, str) or ra is None):
         rep.violation('C07:sphinx', 'sphinxext.process_signature returned non-strings for %s: %r' % (name, r[1]),
                       {'kind': 'sphinx', 'name': name})
+
+
+def class_member(name):
+    """(class, raw class attribute, attribute name) when the dotted name is a member of a plain class"""
+    from sigtools import sphinxext
+    try:
+        parent, _obj = sphinxext.fetch_dotted_name(name)
+    except Exception:  # noqa: BLE001
+        return None
+    if not isinstance(parent, type) or type(parent) is not type:
+        return None
+    attr = name.rpartition('.')[2]
+    try:
+        raw = inspect.getattr_static(parent, attr)
+    except AttributeError:
+        return None
+    return parent, raw, attr
 
 
 def resolve_name(name):
